@@ -130,6 +130,43 @@ end Generic
 
 /-! ## statements at ℝ -/
 
+set_option linter.unusedTactic false in
+set_option linter.unreachableTactic false in
+set_option linter.unusedSimpArgs false in
+/-- **The curves are the tail-concentration functions.**  At ℝ the generated formulas are
+    `L(z) = left / z²`, `R(z) = right / (1 − z)²` (empirical, `left`/`right` = the two count ratios),
+    `C(z,z) / z²` and `(1 − 2z + C(z,z)) / (1 − z)²` (candidates); the distance summand is the squared
+    difference, the score the plain sum of the three ranks, and the grid is
+    `linspace(eps, 1 − eps, 50)`. -/
+theorem tail_concentration_formulas (left right b c z e l r s eps : ℝ) :
+    Gen.SelectCopula.leftVal left b = left / b ^ 2 ∧
+    Gen.SelectCopula.rightVal right b b = right / (1 - b) ^ 2 ∧
+    Gen.SelectCopula.candLeft c z = c / z ^ 2 ∧
+    Gen.SelectCopula.candRight c z = (1 - 2 * z + c) / (1 - z) ^ 2 ∧
+    Gen.SelectCopula.computeTail c z = (1 - 2 * z + c) / (1 - z) ^ 2 ∧
+    Gen.SelectCopula.sqDiff e c = (e - c) ^ 2 ∧
+    Gen.SelectCopula.scoreSum l r s = l + r + s ∧
+    Gen.SelectCopula.gridLo eps = eps ∧ Gen.SelectCopula.gridHi eps = 1 - eps ∧
+    Gen.SelectCopula.gridN = 50 := by
+  refine ⟨?_, ?_, ?_, ?_, ?_, ?_, ?_, ?_, ?_, ?_⟩ <;>
+  simp [Gen.SelectCopula.leftVal, Gen.SelectCopula.rightVal, Gen.SelectCopula.candLeft,
+    Gen.SelectCopula.candRight, Gen.SelectCopula.computeTail, Gen.SelectCopula.sqDiff,
+    Gen.SelectCopula.scoreSum, Gen.SelectCopula.gridLo, Gen.SelectCopula.gridHi,
+    Gen.SelectCopula.gridN, Gen.SelectCopula.steps, Real.rpow_two, Real.rpow_natCast] <;>
+  first | done | ring_nf | (field_simp; ring)
+
+/-- **What is counted.**  `left` is the fraction of rows in the closed lower-left square `[·, b]²`, `right`
+    the fraction in the closed upper-right square `[b, ·]²` (both comparisons non-strict), and a tail
+    point is recorded exactly when that fraction is positive. -/
+theorem tail_counts_spec (u v b x : ℝ) (c n : ℕ) :
+    (Gen.SelectCopula.leftPred u v b = true ↔ u ≤ b ∧ v ≤ b) ∧
+    (Gen.SelectCopula.rightPred u v b = true ↔ b ≤ u ∧ b ≤ v) ∧
+    (Gen.SelectCopula.ratio c n : ℝ) = (c : ℝ) / n ∧
+    (Gen.SelectCopula.leftGuard x = true ↔ 0 < x) ∧
+    (Gen.SelectCopula.rightGuard x = true ↔ 0 < x) := by
+  simp [Gen.SelectCopula.leftPred, Gen.SelectCopula.rightPred, Gen.SelectCopula.ratio,
+    Gen.SelectCopula.leftGuard, Gen.SelectCopula.rightGuard]
+
 /-- For τ ≤ 0 (and a successful `Frank.fit`) the result is the fitted Frank object itself, whatever
     the data and the grid. -/
 theorem returns_frank_when_tau_nonpositive (ext : Ext ℝ) (base : List ℝ) (data : List (ℝ × ℝ))
